@@ -73,8 +73,12 @@ def _bytes_escape(match: Match[bytes]) -> bytes:
 
 
 def param_to_str(ident: str) -> str:
+    # Unlike identifiers, unquoted parameter names can only consist of
+    # letters, underscores and ASCII digits.
+    force = not all(
+        c == '_' or c.isalpha() or c in '0123456789' for c in ident)
     return '$' + edgeql_quote.quote_ident(
-        ident, allow_reserved=True, allow_num=True)
+        ident, force=force, allow_reserved=True, allow_num=True)
 
 
 def ident_to_str(ident: str, allow_num: bool=False) -> str:
